@@ -427,6 +427,38 @@ def library_lines():
     return _LIBLINES
 
 
+def library_string_flows(ctx):
+    """a string handed from one bundled procedure to another keeps its capacity: where the caller's variable is declared
+    with the size placeholder (= the requested size), the callee's parameter is too - and fixed sizes agree likewise"""
+    from vf.tv import lib as tvlib
+
+    lib = tvlib.load_library()
+    n = 0
+    for pn, P in sorted(lib.items()):
+        decl = {p_[0].lower(): p_ for p_ in P.params}
+        decl.update({k: (k,) + tuple(v) for k, v in P.dims.items()})
+        for callee, args, raw in P.runs:
+            Q = lib.get(callee.lower())
+            if Q is None:
+                continue
+            for i, a in enumerate(args):
+                if a[0] != "var" or a[1].lower() not in decl or i >= len(Q.params):
+                    continue
+                d = decl[a[1].lower()]
+                if d[2] != "string" or Q.params[i][2] != "string":
+                    continue
+                n += 1
+                ctx.stats["obligations"] += 1
+                if d[3] == Q.params[i][3]:
+                    ctx.stats["identity"] += 1
+                else:
+                    size = lambda x: "the requested size" if x == -1 else "32 (no size given)" if x is None else str(x)  # noqa: E731
+                    ctx.violation(f"library-string-flow:{callee.lower()}.{Q.params[i][0].lower()}", f"{pn} passes {a[1]} (declared with {size(d[3])}) to {callee}, whose parameter {Q.params[i][0]} is declared with {size(Q.params[i][3])}: `{raw}`", {"source": "10 PLAY \"C\"", "bundle": True, "witness": {"default_str_storage": 80}, "library_flow": [pn, callee]})
+    ctx.bounds["library_string_flows"] = n
+    if not n:
+        raise HarnessError("no string flow between bundled procedures found (vacuous)")
+
+
 def run(tier):
     ctx = Ctx("C10", tier, "translation_validation", technique="real convert() pipeline executed with z3-backed string sizes (symbolic default and configured size); declarations read back by the loader; z3 decides capacity = requested size for all sizes 1..32766")
     smt.reset_stats()
@@ -465,6 +497,7 @@ def run(tier):
                 ctx.harness_gap(f"{r['job'][1]!r}: {sig}")
             else:
                 ctx.violation(sig, f"{r['job'][1]!r} with dependencies -> {what}", {"source": r["job"][1], "bundle": True, "witness": witness})
+    library_string_flows(ctx)
     config_validation(ctx)
     ctx.add_solver_stats(smt.STATS.export())
     ctx.extra["solver"] = {"z3": smt.z3_version()}
@@ -477,6 +510,10 @@ def replay(rec):
     from coco.b09.configs import CompilerConfigs, StringConfigs
 
     w = rec.get("witness") or {}
+    if rec.get("library_flow"):
+        probe = Ctx("C10", "quick", "translation_validation", technique="replay")
+        library_string_flows(probe)
+        return bool(probe.new_violations or probe.known_hit)
     if rec.get("bundle"):
         from vf.realconv import convert_full
 
